@@ -540,24 +540,17 @@ class UnionMetaType(StructureMetaType):
         offset = stream.tell()
         expected_offset = offset + len(cls)
 
-        # Sort by largest field
-        fields = sorted(cls.__fields__, key=lambda e: e.type.size or 0, reverse=True)
-        anonymous_struct = False
+        # Write the largest field, it covers the most bytes of the union
+        # For fields of the same size prefer regular fields over anonymous structures
+        fields = sorted(cls.__fields__, key=lambda e: (e.type.size or 0, e.name is not None), reverse=True)
 
-        # Try to write by largest field
-        for field in fields:
+        if fields:
+            field = fields[0]
             if isinstance(field.type, StructureMetaType) and field.name is None:
-                # Prefer to write regular fields initially
-                anonymous_struct = field.type
-                continue
-
-            # Write the value
-            field.type._write(stream, getattr(data, field._name))
-            break
-
-        # If we haven't written anything yet and we initially skipped an anonymous struct, write it now
-        if stream.tell() == offset and anonymous_struct:
-            anonymous_struct._write(stream, data)
+                # The fields of an anonymous structure live on the union itself
+                field.type._write(stream, data)
+            else:
+                field.type._write(stream, getattr(data, field._name))
 
         # If we haven't filled the union size yet, pad it
         if remaining := expected_offset - stream.tell():
